@@ -77,6 +77,10 @@ pub fn replay(path: &str) -> i32 {
         Some("c16-string") | Some("c16-match") | Some("c16-server") | Some("c16-ffi") => filter::replay_c16(scn),
         Some("c19-db") | Some("c19-schedule") => ffi::replay_c19(scn),
         Some("c18-client") | Some("c18-server") | Some("c18-call-errors") | Some("c18-enums") => ffi::replay_c18(scn),
+        Some("c06-pty") => {
+            let bits: Vec<usize> = scn["bits"].as_array().unwrap().iter().map(|x| x.as_u64().unwrap() as usize).collect();
+            serial_pty::rtu_crc_over_pty(&bits).1
+        }
         Some("serial-history") => serial_pty::replay_serial(scn),
         Some("rtu-server-pty") => serial_pty::replay_rtu_server(scn),
         Some("net-history") => lifecycle_net::replay_net(scn),
